@@ -89,6 +89,16 @@ def run_case(ctx, FlowCal, cid, spec, path):
         ok &= compare(ctx, cid, spec, np.asarray(d.value), 'asarray(FCSData)')
         ctx.check(tuple(d.value.channels) == tuple(spec['names']), 'channel-order', cid,
                   got=list(d.value.channels), want=spec['names'])
+        # history: what an earlier load's owner did to its sample must not leak into a later load of the same file
+        if d.value.size and hash((spec['datatype'], len(raw))) % 3 == 0:
+            s1 = d.value
+            s1[...] = 0 if spec['datatype'] == 'I' else -1.5
+            s1.text['$TOT'] = 'scribbled'
+            d2 = core.attempt(FlowCal.io.FCSData, path)
+            if ctx.check(not d2.raised, 'supported-layout-refused', cid, where='FCSData(reload)',
+                         exc=core.exc_str(d2.exc) if d2.raised else None, spec=desc):
+                compare(ctx, cid, spec, np.asarray(d2.value), 'asarray(FCSData) after an earlier load was modified in place')
+                ctx.check(d2.value.text.get('$TOT') == str(len(spec['events'])), 'reload-sees-earlier-sample-state', cid)
     return raw
 
 
